@@ -5,15 +5,40 @@ From LMBase Require Import Res ListX IEEE.
 From LMIo Require Import IoBase IoNom IoJaspar IoUniprobe IoPrint.
 Import ListNotations.
 
-(* canonical decimal token of the round-trip theorem: digits+ optionally followed by '.' digits*
-   (a sub-grammar of nom's float: no sign, no exponent, no nan/inf) *)
-Definition wf_dec (t : list N) : bool :=
-  let (a, r) := span is_digit t in
-  negb (is_nil a) &&
-  match r with
-  | [] => true
-  | c :: b => N.eqb c 46 && forallb is_digit b
+(* a float token of the round-trip theorem: nom's decimal float grammar
+     SIGN? ( DIGITS ('.' DIGITS?)? | '.' DIGITS ) ( [eE] SIGN? DIGITS )?     with DIGITS = one or more digits
+   (nan / inf spellings are left out: a row containing them never passes FrequencyMatrix::new) *)
+Definition is_sign (c : N) : bool := N.eqb c 43 || N.eqb c 45.
+Definition strip_sign (l : list N) : list N :=
+  match l with c :: r => if is_sign c then r else l | [] => [] end.
+
+(* the mantissa; returns what follows it *)
+Definition wf_mant (l : list N) : option (list N) :=
+  let (a, r) := span is_digit l in
+  match a with
+  | _ :: _ => match r with
+              | c :: r' => if N.eqb c 46 then Some (snd (span is_digit r')) else Some r
+              | [] => Some []
+              end
+  | [] => match r with
+          | c :: r' => if N.eqb c 46
+                       then let (b, r'') := span is_digit r' in
+                            match b with [] => None | _ :: _ => Some r'' end
+                       else None
+          | [] => None
+          end
   end.
+
+(* the optional exponent, up to the end of the token *)
+Definition wf_exp (l : list N) : bool :=
+  match l with
+  | [] => true
+  | c :: r => (N.eqb c 101 || N.eqb c 69)
+              && negb (is_nil (strip_sign r)) && forallb is_digit (strip_sign r)
+  end.
+
+Definition wf_dec (t : list N) : bool :=
+  match wf_mant (strip_sign t) with Some r => wf_exp r | None => false end.
 
 Section U.
   Variable A : alphabet.
